@@ -429,6 +429,21 @@ def make_semantics2(kind, rules, params=None, shape=None):
         Sem.__hash__ = lambda self: 7
         Sem._verif_equal = True
 
+    if kind == 'iddefault':
+        # identity actions whose signature has a parameter with a default after the AST: the rule's declared parameters fill it, and
+        # when the rule declares none it keeps its default
+        for nm in rules:
+            def mk2(nm):
+                def action(self, ast, extra='dflt', *a, **kw):
+                    want = [str(x) for x in (params.get(nm) or [])]
+                    got = ([] if extra == 'dflt' else [str(extra)]) + [str(x) for x in a]
+                    log.append((nm, norm(ast), got))
+                    if got != want:
+                        raise AssertionError(f'rule {nm}: declared params {want} but action(ast, extra={extra!r}, *{a!r})')
+                    return ast
+                return action
+            setattr(Sem, nm, mk2(nm))
+        return Sem(), log
     if kind == 'tagdefault':
         def _default(self, ast, *a, **kw):
             # _default is not told the rule name; tag with '?' and let the driver compare modulo the tag's name
